@@ -19,6 +19,25 @@ CHECKS = {
             "DESIGN.md section 3 C10"),
 }
 
+CHECKS.update({
+    "C03": ("Bounded symbolic execution of the coverage-phase value generators: _positive_number / cover_schema_iter / _positive_string / "
+            "_positive_array with the numeric keywords as unbounded symbolic ints; every value yielded as valid is checked against the JSON-Schema "
+            "meaning of the keywords, every value yielded as invalid against its description; case-level labels of _iter_coverage_cases are "
+            "checked against their components. Boundary coincidences (0, equal bounds, weaker exclusive bound) are single points no test samples.",
+            "CrossHair symbolic execution (z3) of _positive_number, cover_schema_iter, _positive_string, _positive_array, _iter_coverage_cases with symbolic schema keywords",
+            "DESIGN.md section 3 C03"),
+    "C18": ("Bounded symbolic execution of use_after_free / ensure_resource_availability over a hand-built ScenarioRecorder whose whole "
+            "history (operations, ids, parent pointers incl. separate trees, every response status 100..599) is symbolic; the verdict is compared "
+            "with the property text as a predicate. Covers every history within the length bound, which the demo-API tests cannot.",
+            "CrossHair symbolic execution (z3) of the two checks + ScenarioRecorder.find_* + _is_prefix_operation over symbolic histories",
+            "DESIGN.md section 3 C18"),
+    "C19": ("Bounded symbolic execution of hook / auth-provider registration histories: to_filterable_hook, HookDispatcher, FilterSet, "
+            "AuthStorage run on symbolic sequences of registrations (7 decorator forms, unregistration) and the resulting applicability is "
+            "compared with each extension's own filters for every operation. Order-dependent state in closures is exactly what example tests miss.",
+            "CrossHair symbolic execution (z3) of to_filterable_hook/HookDispatcher/AuthStorage over symbolic registration histories",
+            "DESIGN.md section 3 C19"),
+})
+
 NOT_APPLICABLE = {
     "C13": "Seed reproducibility is a 2-run hyper-property of the whole program through Hypothesis' engine, its PRNG, identity-keyed caches and "
            "set iteration order; none of it can be made a symbolic variable of a bounded encoding, and the only solver-shaped fragment "
